@@ -213,7 +213,9 @@ func (p *filePeer) serve(conn net.Conn) {
 		perm := p.rng.Perm(len(batch))
 		for i, j := range perm {
 			if i != j {
+				p.mu.Lock()
 				p.reorders++
+				p.mu.Unlock()
 			}
 			outq <- batch[j]
 		}
